@@ -964,6 +964,11 @@ func (f *Frame) specUser(sf *SpecFunc, n SCall, env *specEnv) Val {
 		if rt != nil {
 			r.Typ = rt
 		}
+		// a long closed integer term gets a name (a definition, asserted once): nested uses of a macro such as
+		// vval(buf[vlen(buf):]) would otherwise copy the whole expansion at every occurrence
+		if rt == mathInt && len(r.T) > 300 && !strings.Contains(r.T, "!q") && !strings.HasPrefix(r.T, "SEQ:") && os.Getenv("RTV_NAME") != "" {
+			r.T = e.define("sp_"+sanitize(sf.Name), sInt, r.T)
+		}
 		return r
 	}
 	// opaque: uninterpreted function
